@@ -237,11 +237,11 @@ def p_ptrformula_1(t):
 
 def p_ptrformula_2(t):
     '''ptrformula : PTRSIZE opt_seg_colon formula'''
-    t[0] = t[1]
+    t[0] = t[3]
     if t[2][x86_afs.segm] != 3:
         # We don't mention the DS segment, which is implicit
         t[0].update(t[2])
-    t[0].update(t[3])
+    t[0].update(t[1])
 
 def p_symbolregister(t):
     '''symbolregister : REGISTER
